@@ -1,8 +1,189 @@
+/-
+Property C12 — inside `Calibration(momentum = m)` the activation scale of a module is the
+exponential moving average (momentum `m`, initialised by the first batch) of the per-batch absmax
+scales; a module fed an already quantized tensor adopts that tensor's scale; after a single batch
+no activation of that batch saturates.  The value 1 of the buffer is the "not calibrated yet"
+sentinel: the average restarts whenever it is reached (`C12_counterexample_sentinel`).
+Helper lemmas: `Proofs/C12/Lemmas.lean`.
+-/
 import Quanto.Calib
+import Proofs.C12.Lemmas
+import Proofs.Properties.C03
 namespace Quanto
 
 /-- a single batch initialises the scale -/
 theorem C12_first_batch (F : Fmt) (m : Rat) (x : FV) : calibFold F m [.batch x] = x := by
   simp [calibFold, applyEvent, updatedScale]
+
+/-! ### T1: the fold of the code is the exponential moving average of the property -/
+
+/-- generalised form: from a buffer value `s` already produced by some event -/
+theorem C12_ema_acc (F : Fmt) (m : Rat) (evs : List ScaleEvent) (s : FV)
+    (h : noSentinelFrom F m s evs = true) :
+    emaSpec F m evs (some s) = some (calibFold F m evs s) := by
+  induction evs generalizing s with
+  | nil => rfl
+  | cons e evs ih =>
+    cases e with
+    | batch x =>
+      simp only [noSentinelFrom, Bool.and_eq_true, bne_iff_ne, ne_eq] at h
+      rw [calibFold_cons]
+      show emaSpec F m evs (some (emaStep F m s x)) = some (calibFold F m evs (updatedScale F m s x))
+      rw [updatedScale_of_ne F m h.1]
+      exact ih _ h.2
+    | adopt s' =>
+      simp only [noSentinelFrom] at h
+      rw [calibFold_cons]
+      exact ih _ h
+
+/-- T1: whenever no batch meets the sentinel value after the first event, the scale computed by
+the code is the property's moving average -/
+theorem C12_ema (F : Fmt) (m : Rat) (evs : List ScaleEvent) (hne : evs ≠ [])
+    (h : noSentinel F m evs) : emaSpec F m evs none = some (calibFold F m evs) := by
+  cases evs with
+  | nil => exact absurd rfl hne
+  | cons e evs =>
+    rw [noSentinel_cons_iff] at h
+    rw [calibFold_cons]
+    cases e with
+    | batch x =>
+      change noSentinelFrom F m (updatedScale F m (.fin 1) x) evs = true at h
+      show emaSpec F m evs (some x) = some (calibFold F m evs (updatedScale F m (.fin 1) x))
+      rw [updatedScale_sentinel] at h ⊢
+      exact C12_ema_acc F m evs x h
+    | adopt s => exact C12_ema_acc F m evs s h
+
+/-- the recursive (executable) and the prefix reading of "the sentinel never interferes" agree -/
+theorem C12_noSentinel_iff (F : Fmt) (m : Rat) (e : ScaleEvent) (evs : List ScaleEvent) :
+    noSentinel F m (e :: evs) ↔ noSentinelFrom F m (applyEvent F m (.fin 1) e) evs = true :=
+  noSentinel_cons_iff F m e evs
+
+/-! ### T2: adopted scales -/
+
+/-- a module fed an already quantized tensor adopts that tensor's scale, whatever happened before -/
+theorem C12_adopt (F : Fmt) (m : Rat) (evs : List ScaleEvent) (s : FV) (init : FV := .fin 1) :
+    calibFold F m (evs ++ [.adopt s]) init = s := by
+  rw [calibFold_append]; rfl
+
+/-- after an adopt of `s ≠ 1` the following batch is averaged from `s` -/
+theorem C12_adopt_then_batches (F : Fmt) (m : Rat) (evs : List ScaleEvent) (s x : FV)
+    (hs : s ≠ .fin 1) (init : FV := .fin 1) :
+    calibFold F m (evs ++ [.adopt s, .batch x]) init = emaStep F m s x := by
+  rw [calibFold_append]
+  show updatedScale F m s x = _
+  exact updatedScale_of_ne F m hs x
+
+/-- (recorded finding, adopt flavour) an adopted scale equal to 1 is forgotten by the next batch -/
+theorem C12_adopt_one_then_batch (F : Fmt) (m : Rat) (evs : List ScaleEvent) (x : FV)
+    (init : FV := .fin 1) :
+    calibFold F m (evs ++ [.adopt (.fin 1), .batch x]) init = x := by
+  rw [calibFold_append]
+  show updatedScale F m (.fin 1) x = _
+  exact updatedScale_sentinel F m x
+
+/-! ### T3: momentum 0 -/
+
+/-- with momentum 0 the scale is the last batch's range, exactly -/
+theorem C12_momentum_zero (F : Fmt) (hF : WorkFmt F) (sq xq : Rat) (hx : F.Rep xq)
+    (hm : |xq| ≤ F.maxFin) : emaStep F 0 (.fin sq) (.fin xq) = .fin xq := by
+  rw [emaStep_fin, rndFin_zero, sub_zero, f64_rndFin_one, f32_rndFin_one, zero_mul, mul_one,
+    fl_zero F hF, fl_of_rep F hF xq hx hm, add_fin_fin, zero_add, fl_of_rep F hF xq hx hm]
+
+/-- the fold with momentum 0 returns the last batch -/
+theorem C12_momentum_zero_fold (F : Fmt) (hF : WorkFmt F) (evs : List ScaleEvent) (sq xq : Rat)
+    (hs : calibFold F 0 evs = .fin sq) (hx : F.Rep xq) (hm : |xq| ≤ F.maxFin) :
+    calibFold F 0 (evs ++ [.batch (.fin xq)]) = .fin xq := by
+  rw [calibFold_append, hs]
+  show updatedScale F 0 (.fin sq) (.fin xq) = _
+  unfold updatedScale
+  split
+  · rfl
+  · exact C12_momentum_zero F hF sq xq hx hm
+
+/-! ### T4: the sentinel defect -/
+
+/-- (recorded finding) a first batch whose scale is exactly 1 (an int8 batch with absmax 127) is
+forgotten: the next batch restarts the average instead of being averaged with it -/
+theorem C12_counterexample_sentinel :
+    calibFold f32 ((8106479329266893 : Rat) / 9007199254740992) [.batch (.fin 1), .batch (.fin 2)]
+      = .fin 2 ∧
+    emaSpec f32 ((8106479329266893 : Rat) / 9007199254740992) [.batch (.fin 1), .batch (.fin 2)] none
+      ≠ some (.fin 2) := by
+  decide +kernel
+
+/-! ### T5: one step is a convex combination up to rounding -/
+
+/-- T5: for a momentum in `[0,1]` and non-negative finite scales, a finite result of one update
+lies between the smaller and the larger of the old scale and the batch scale, up to a relative
+error `4u` and an absolute error `4η` (no magnitude guard is needed: a finite result forces finite
+intermediate products) -/
+theorem C12_ema_between (F : Fmt) (hF : WorkFmt F) (m : Rat) (hm0 : 0 ≤ m) (hm1 : m ≤ 1)
+    (s x y : Rat) (hs : 0 ≤ s) (hx : 0 ≤ x) (h : emaStep F m (.fin s) (.fin x) = .fin y) :
+    min s x * (1 - 4 * F.u) - 4 * F.eta ≤ y ∧ y ≤ max s x * (1 + 4 * F.u) + 4 * F.eta := by
+  rw [emaStep_fin] at h
+  obtain ⟨ha, hb, hab1, hab2⟩ := weights_bounds m hm0 hm1
+  generalize f32.rndFin m = a at *
+  generalize f32.rndFin (f64.rndFin (1 - m)) = b at *
+  obtain ⟨P, Q, hP, hQ⟩ := add_fin_inv F hF _ _ y h
+  rw [hP, hQ, add_fin_fin] at h
+  have eP := abs_le.mp (fl_err F hF _ _ hP)
+  have eQ := abs_le.mp (fl_err F hF _ _ hQ)
+  have ey := abs_le.mp (fl_err F hF _ _ h)
+  have has : 0 ≤ a * s := mul_nonneg ha hs
+  have hxb : 0 ≤ x * b := mul_nonneg hx hb
+  have hP0 : 0 ≤ P := by
+    obtain ⟨rfl, -⟩ := fl_fin F hF _ _ hP
+    exact le_flR_of_rep F hF (Rep_zero F) has
+  have hQ0 : 0 ≤ Q := by
+    obtain ⟨rfl, -⟩ := fl_fin F hF _ _ hQ
+    exact le_flR_of_rep F hF (Rep_zero F) hxb
+  rw [abs_of_nonneg has] at eP
+  rw [abs_of_nonneg hxb] at eQ
+  rw [abs_of_nonneg (add_nonneg hP0 hQ0)] at ey
+  have hu0 := F.u_nonneg
+  have he0 := F.eta_nonneg
+  have hu := (u_eta_work F hF).1
+  have hug := work_u_ge F hF
+  have hk0 : (0 : Rat) ≤ pow2 (-52) := (pow2_pos _).le
+  have hk1 : pow2 (-52) ≤ 1 / 100 * pow2 (-24) := by norm_num [pow2_eq]
+  constructor
+  · exact ema_lower_core F.u F.eta (pow2 (-24) + pow2 (-52)) a b s x P Q y hu0 hu he0
+      (by linarith) ha hb hab2 hs hx (by linarith [eP.1]) (by linarith [eQ.1]) (by linarith [ey.1])
+  · exact ema_upper_core F.u F.eta (pow2 (-24) + pow2 (-52)) a b s x P Q y hu0 hu he0
+      (by linarith) ha hb hab1 hs (by linarith [eP.2]) (by linarith [eQ.2]) (by linarith [ey.2])
+
+/-! ### T6: after a single batch nothing saturates -/
+
+/-- T6: if the only batch has values `xs`, the scale after it is the (clamped) absmax scale of
+`xs`, and no element of the batch exceeds the representable range `sq·qmax` by more than rounding -/
+theorem C12_single_batch_no_saturation (F : Fmt) (hF : WorkFmt F) (m : Rat) (qmax : Rat)
+    (hq : 1 ≤ qmax) (xs : List Rat) (sq : Rat)
+    (h : calibFold F m [.batch (absmaxOf F qmax true (.fin (listAbsMax xs)))] = .fin sq) :
+    ∀ x ∈ xs, |x| ≤ sq * qmax * (1 + 2 * F.u) + F.eta * qmax := by
+  rw [C12_first_batch] at h
+  exact C03_nonsaturating_clamped F hF qmax hq xs sq h
+
+/-! ### non-vacuity -/
+
+/-- T1 on a concrete three-batch history in float16 with momentum 0.9 (as a double): the
+hypotheses hold and both sides are the float16 number 2037/4096 -/
+example :
+    let m : Rat := (8106479329266893 : Rat) / 9007199254740992
+    let evs : List ScaleEvent := [.batch (.fin (1 / 2)), .batch (.fin (3 / 4)), .batch (.fin (1 / 4))]
+    noSentinel f16 m evs ∧ emaSpec f16 m evs none = some (calibFold f16 m evs) ∧
+      calibFold f16 m evs = .fin (2037 / 4096) := by
+  intro m evs
+  have hns : noSentinel f16 m evs := by
+    rw [noSentinel_cons_iff]; decide +kernel
+  exact ⟨hns, C12_ema f16 m evs (by simp [evs]) hns, by decide +kernel⟩
+
+/-- T5 on a concrete step: 1075/2048 lies between 1/2 and 3/4 (up to rounding) -/
+example : emaStep f16 ((8106479329266893 : Rat) / 9007199254740992) (.fin (1 / 2)) (.fin (3 / 4))
+    = .fin (1075 / 2048) := by decide +kernel
+
+/-- T3 on a concrete step in bfloat16 -/
+example : emaStep bf16 0 (.fin 5) (.fin (3 / 4)) = .fin (3 / 4) :=
+  C12_momentum_zero bf16 (by simp [WorkFmt]) 5 (3 / 4) ⟨3, -2, by norm_num, by norm_num [bf16], by decide⟩
+    (by norm_num [Fmt.maxFin, bf16, pow2_eq])
 
 end Quanto
